@@ -81,7 +81,43 @@ def key(b):
     return json.dumps([b["cfg"], b["pcfg"], [[o["op"], o.get("a", ""), o.get("e", "")] for o in b["ops"]]], sort_keys=True)
 
 
+def replay(ctx, pid, path):
+    """./tools/check C07 --replay <path>: re-execute the saved behaviour of a violation on the current tree and judge it
+    with the monitor (path = the saved trace snippet or the behaviour file next to it)."""
+    import glob
+    bf = path
+    if not path.endswith("behaviour.json"):
+        prefix = os.path.basename(path).split("-")[0]
+        cands = sorted(glob.glob(os.path.join(os.path.dirname(os.path.abspath(path)), prefix + "-*behaviour.json")))
+        if not cands:
+            raise vlib.Infra("no behaviour file next to %s" % path)
+        bf = cands[-1]
+    with open(bf) as f:
+        b = json.load(f)
+    bfile = ctx.tmp("behaviours.ndjson")
+    vlib.write_ndjson(bfile, [b])
+    exe = ctx.build("supervision")
+    trace = ctx.tmp("trace.ndjson")
+    p = ctx.run([exe, "replay", bfile, trace, "1"], timeout=300)
+    nlines = json.loads(p.stdout.strip().splitlines()[-1])["events"]
+    mon = ctx.tlc(SPEC, "SupMonitor.cfg", dfs=True, files={"trace.ndjson": trace}, timeout=600, expect_fail=True)
+    if mon.error or mon.violated or mon.depth != nlines + 1:
+        raise vlib.Infra("monitor did not consume the whole trace")
+    mism = vlib.tuples(mon.out, "MISMATCH")
+    if len(mism) != mon.out.count('"MISMATCH"'):
+        raise vlib.Infra("unparsed MISMATCH lines in monitor output")
+    if vlib.tuples(mon.out, "NOTQUIET"):
+        raise vlib.Infra("the behaviour could not be judged (no quiescence / overlap missed)")
+    ctx.log("replayed %s: %d trace lines, %d mismatches" % (bf, nlines, len(mism)))
+    if mism:
+        rp = ctx.save_replay("replay-seed%d" % ctx.seed, trace, bf)
+        raise vlib.Violation(pid, rp, "monitor: trace line %d: actor %s field %s expected %s observed %s (%d mismatches)"
+                             % (mism[0][0], mism[0][2], mism[0][3], mism[0][4], mism[0][5], len(mism)))
+
+
 def run(ctx, pid):
+    if getattr(ctx, "replay", None):
+        return replay(ctx, pid, ctx.replay)
     quick = ctx.quick
     # 1. behaviours out of TLC (+ design-level obligation Conforms on the generated state space); the exhaustive
     #    and the random generator run side by side
